@@ -88,6 +88,11 @@ CHECKS = {
             "Every integer builtin result (add, sub, mul, neg, abs, cmp and the six relations, pow, floor division with floored mod, ceil division, bitwise and/or/xor, gcd, lcm, factorial, binomial, digits in 4 bases, to_str/to_int, literal vs to_int) for operand pairs across the 31/63/64/127-bit boundaries and random 1-400-bit values is an event that TLC accepts only if it is the exact result (recomputed in base-10^4 limbs or checked by the defining relation), if the Short/Long representation is canonical, and if values reached along two routes are equal, hash equally and print equally.",
             "Not covered: int<->float conversions and `div` (no reals in TLC), multinomial, combinatorial index functions; gcd maximality relies on the interpreter's own gcd of the cofactors.",
             "DESIGN.md 6 C14"),
+    "C19": ("model_checking",
+            "TLA+ order/text/format semantics (XrOrder, laws checked by TLC) and stable-sort reference (XrSort) replayed; failing-comparator sweeps validated by XrRuntime",
+            "TLC enumerates all typed value pairs of a 10-type nested universe with structural eq and lexicographic cmp (laws: equivalence, antisymmetry, transitivity, consistency, prefix rule checked on the model) and all well-formed integer format specifiers of the documented grammar x values; the interpreter's eq/ne/cmp/lt/le/gt/ge/to_str/format/hash must agree (equal => equal hash, hash in [0, 2^64)). Sort and order statistics are compared with the stable reference on inputs up to 200 elements; a comparator that raises a violation at the k-th comparison (every k) or an error on a poison element must give that outcome with accounting balanced (XrRuntime trace validation).",
+            "Float formatting with precision, Stack/Set/Mapping text, median/rank functions and '^' odd padding are not covered.",
+            "DESIGN.md 6 C19"),
 }
 
 NOT_YET = {}
